@@ -738,6 +738,9 @@ func (rt *runtimeT) classify(err error, targetRan bool) string {
 			return fmt.Sprintf("(ObsErrId %s)", z(e))
 		}
 	}
+	if ev, ok := err.(E0); ok {
+		return fmt.Sprintf("(ObsErrValue %s)", z(int(ev)))
+	}
 	msg := err.Error()
 	switch {
 	case strings.Contains(msg, "arg cannot be nil"), strings.Contains(msg, "fn should be a function"):
@@ -807,7 +810,7 @@ func runScenario(sc *Scenario, seed uint64, wd *int64) (terms []string, cats []s
 		// identity function types of Convert get the ids the model expects
 		rt.ftypes[reflect.FuncOf([]reflect.Type{tyOf[t]}, []reflect.Type{tyOf[t]}, false)] = -1 - t
 	}
-	for _, t := range append([]int{30, 31}, ifaceTys...) {
+	for _, t := range append([]int{30, 31, 12}, ifaceTys...) {
 		rt.ftypes[reflect.FuncOf([]reflect.Type{tyOf[t]}, []reflect.Type{tyOf[t]}, false)] = -1 - t
 	}
 	for _, d := range sc.Funcs {
